@@ -113,8 +113,10 @@ def impl(c):
     mode = SameBeatNotes(c["mode"])
     ph, pt = OrphanedNotes(c["ph"]), OrphanedNotes(c["pt"])
     try:
-        groups = [[item_obs(x) for x in g] for g in group_notes(shaped(c, notes_list), include_note_types=types, same_beat_notes=mode, join_heads_to_tails=c["join"],
-                                                               orphaned_head=ph, orphaned_tail=pt)]
+        kw = {"include_note_types": types, "same_beat_notes": mode, "orphaned_head": ph, "orphaned_tail": pt}
+        if c["join"] or c.get("shape", 0) % 2 == 0:
+            kw["join_heads_to_tails"] = c["join"]              # joining off is also spelled by leaving the keyword out: the orphan options are then ignored
+        groups = [[item_obs(x) for x in g] for g in group_notes(shaped(c, notes_list), **kw)]
         res = ["ok", groups]
     except OrphanedNoteException as e:
         res = ["orphan", G.note_obs(e.args[0])]
